@@ -481,7 +481,7 @@ func c01Specs(thorough bool) []mb.Msg {
 				Embeds: []mb.File{{Name: "e.png", Content: bins[j]}}, Attach: []mb.File{{Name: "a.bin", Content: bins[(j+1)%len(bins)]}, {Name: "t.txt", Content: texts[i], Enc: "8bit"}}})
 		}
 	}
-	// the same programs with their files taken over from another Msg (SetEmbeds(other.GetEmbeds()) …) that is Reset, refilled and rendered afterwards; attributes given through setters instead of options: message-level setters right
+	// the same programs with their a body set on a message that already had one (replaced); files taken over from another Msg (SetEmbeds(other.GetEmbeds()) …) that is Reset, refilled and rendered afterwards; attributes given through setters instead of options: message-level setters right
 	// after NewMsg (1), everything set after the message has been assembled (2) — every 5th program (thorough: all)
 	n := len(specs)
 	for i := 0; i < n; i++ {
@@ -505,6 +505,16 @@ func c01Specs(thorough bool) []mb.Msg {
 			specs = append(specs, c)
 		}
 	}
+	// the same programs on a message that already had a body when the body was set (SetBody* replaces it)
+	for i := 0; i < n; i++ {
+		sp := specs[i]
+		if sp.Recycle != 0 || sp.Grow != 0 || len(sp.Parts) == 0 || sp.Parts[0].Via == "setcontent" || (!thorough && i%4 != 0) {
+			continue
+		}
+		c := sp
+		c.ReBody = true
+		specs = append(specs, c)
+	}
 	// the same programs with their files taken over from another Msg that is recycled afterwards
 	for i := 0; i < n; i++ {
 		sp := specs[i]
@@ -524,7 +534,7 @@ func init() {
 	vf.Register(&vf.Check{
 		ID: "C01", Title: "rendered MIME carries exactly the content the caller supplied",
 		Run: func(r *vf.Run) {
-			r.SetRule("builder programs in canonical order: 0..3 body parts × 0..2 embeds × 0..2 attachments × message encoding {QP, base64, 8bit} × file encoding {default base64, 8bit, QP via File.Enc} × per-part encodings/descriptions/content types/charsets/fixed boundary, contents rotated through a 25-entry text alphabet and an 18-entry binary alphabet (wrap points 57/58/75/76/77, dots, '=', boundary-like lines, bare CR/LF, all 256 byte values, 3000-byte binary); plus every single byte value in every encoding; plus files supplied through AttachReader/EmbedReader (memory recycled by the caller afterwards; one scratch buffer refilled per file) and Attach/EmbedReadSeeker, both also on a source that stands behind a header the caller has consumed already; bodies and files produced from text/html templates; part contents replaced through Part.SetContent; files taken over from another Msg (SetEmbeds(other.GetEmbeds()) …) that is Reset, refilled and rendered afterwards; attributes given through setters instead of options (Msg.SetEncoding / SetCharset / SetBoundary after NewMsg, or everything — incl. Part.SetContentType / SetEncoding / SetCharset / SetDescription — after the message was assembled); messages rendered while still incomplete and completed afterwards; each program is rendered through WriteTo, WriteToFile onto an existing longer file, NewReader, Write, WriteToTempFile, a second WriteTo of the same Msg, a WriteTo that follows one into a sink failing at 1/8..7/8 of the rendering, and WriteToSendmailWithContext into a program that stores its input; each rendering is re-read by the harness' own MIME reader and compared leaf by leaf; distinct by program")
+			r.SetRule("builder programs in canonical order: 0..3 body parts × 0..2 embeds × 0..2 attachments × message encoding {QP, base64, 8bit} × file encoding {default base64, 8bit, QP via File.Enc} × per-part encodings/descriptions/content types/charsets/fixed boundary, contents rotated through a 25-entry text alphabet and an 18-entry binary alphabet (wrap points 57/58/75/76/77, dots, '=', boundary-like lines, bare CR/LF, all 256 byte values, 3000-byte binary); plus every single byte value in every encoding; plus files supplied through AttachReader/EmbedReader (memory recycled by the caller afterwards; one scratch buffer refilled per file) and Attach/EmbedReadSeeker, both also on a source that stands behind a header the caller has consumed already; bodies and files produced from text/html templates; part contents replaced through Part.SetContent; a body set on a message that already had one (replaced); files taken over from another Msg (SetEmbeds(other.GetEmbeds()) …) that is Reset, refilled and rendered afterwards; attributes given through setters instead of options (Msg.SetEncoding / SetCharset / SetBoundary after NewMsg, or everything — incl. Part.SetContentType / SetEncoding / SetCharset / SetDescription — after the message was assembled); messages rendered while still incomplete and completed afterwards; each program is rendered through WriteTo, WriteToFile onto an existing longer file, NewReader, Write, WriteToTempFile, a second WriteTo of the same Msg, a WriteTo that follows one into a sink failing at 1/8..7/8 of the rendering, and WriteToSendmailWithContext into a program that stores its input; each rendering is re-read by the harness' own MIME reader and compared leaf by leaf; distinct by program")
 			r.Assume("file media types without WithFileContentType are those of mime.TypeByExtension", "the charset of a text part is a label: the harness compares bytes, not characters", "NUL bytes are not text")
 			specs := c01Specs(r.Thorough)
 			r.Extra("programs", len(specs))
